@@ -78,6 +78,10 @@ func propC01(c *Ctx, r *Report) {
 	r.Clauses = append(r.Clauses, zeroInitClause)
 	c.runZeroInitOpVariable(r, "zeroinit.opvariable")
 	r.floor("zeroinit.opvariable", 2)
+	r.Clauses = append(r.Clauses, "skip sets (E60): a set of expression handles that an expression handler tests on its operand to skip emitting instructions receives only the handle of the expression a handler is emitting - never the operand itself, whose recorded work may sit in a block that does not dominate the next use")
+	c.runMemoSkipKey(r, "memo.skipkey", inPkgs("spirv"))
+	r.floor("memo.skipkey", 3)
+	r.floor("memo.skipSets", 1)
 	r.Clauses = append(r.Clauses, accumDroppedClause)
 	c.runAccumDropped(r, "accum.dropped", inPkgs("spirv"))
 	r.floor("accum.dropped", 5)
